@@ -55,7 +55,8 @@ func (t DictEntryTuple) asGenericTuple() Tuple {
 
 // Hash computes a hash for a CharTuple.
 func (t DictEntryTuple) Hash(seed uintptr) uintptr {
-	return t.value.Hash(t.at.Hash(seed))
+	// Finished under the caller's seed, see ArrayItemTuple.Hash.
+	return finishHash(t.value.Hash(t.at.Hash(seed)), seed)
 }
 
 // Equal tests two Tuples for equality. Any other type returns false.
